@@ -727,7 +727,7 @@ def c13(tier, seed):
              "t(a,a)=0 checked by TLC as a spec theorem in every state",
         assumptions=ASSUME_COMMON + ["Student-t tail evaluated with scipy.stats.t (the library's "
                                      "own dependency); p within 1e-9 of alpha accepted either way"],
-        feature_floor=("weights_differ",),
+        feature_floor=("weights_differ", "pairwise_index_set_nonempty", "pairwise_p_below_0.05"),
     )
 
 
